@@ -90,6 +90,21 @@ fn extract_field_sources(program: &Program, type_id: usize) -> Vec<FieldSource> 
     }
 }
 
+/// Whether a type has a member that is neither a tuple nor a partial type - an integer, a binary,
+/// a ref, a function, a process or a resource - so that a value of it can have no fields at all.
+/// (A type variable or a back-reference says nothing yet and is not counted.)
+fn has_fieldless_member(program: &Program, type_id: usize) -> bool {
+    match program.lookup_type(type_id) {
+        Some(Type::Union(type_ids)) => type_ids
+            .iter()
+            .any(|&tid| has_fieldless_member(program, tid)),
+        Some(Type::Tuple(_) | Type::Partial { .. } | Type::Variable(_) | Type::Cycle(_)) | None => {
+            false
+        }
+        Some(_) => true,
+    }
+}
+
 /// Get field type ID by name from a field source
 fn get_field_from_source(
     program: &Program,
@@ -145,7 +160,8 @@ pub fn get_field_by_name(
 ) -> Result<(usize, Vec<usize>), Error> {
     let sources = extract_field_sources(program, type_id);
 
-    if sources.is_empty() {
+    // Every member of a union must have the field - a member that is no tuple at all has none
+    if sources.is_empty() || has_fieldless_member(program, type_id) {
         return Err(Error::MemberAccessOnNonTuple {
             target: target_name.to_string(),
         });
@@ -198,7 +214,8 @@ pub fn get_field_at_index(
 ) -> Result<Vec<usize>, Error> {
     let sources = extract_field_sources(program, type_id);
 
-    if sources.is_empty() {
+    // Every member of a union must have the field - a member that is no tuple at all has none
+    if sources.is_empty() || has_fieldless_member(program, type_id) {
         return Err(Error::MemberAccessOnNonTuple {
             target: target_name.to_string(),
         });
